@@ -22,7 +22,8 @@
 From Coq Require Import List ZArith Bool.
 Import ListNotations.
 From PV Require Import Fort.Syntax Fort.Sem Fort.Facts C06.Syntax C06.Model C06.Common
-                       C06.ArrayAssignProofs C06.IntrinsicProofs C06.ReductionProofs C06.LinAlgProofs.
+                       C06.ArrayAssignProofs C06.IntrinsicProofs C06.ReductionProofs C06.LinAlgProofs
+                       C06.Bounds C06.MatMatProofs C06.MatVecFProofs.
 Open Scope Z_scope.
 
 (* ------------------------------------------------------------------ ArrayAssignment2LoopsTrans *)
@@ -188,3 +189,69 @@ Example C06_matvec_nonvacuous :
   val (matvec_sem d 0%nat 1%nat 2%nat s) (0%nat, [3]) = 39.
 Proof. exact matvec_safe_nonvacuous. Qed.
 Print Assumptions C06_matvec_nonvacuous.
+
+(* ------------------------------------------------------------------ dummy arguments: effective bounds (round 3) *)
+(* bounds seen inside the routine as a function of the declaration form and the actual argument's bounds *)
+Theorem C06_effective_bounds : forall f act,
+  match f with
+  | DExplicit lb ub => eff_dim f act = (lb, ub)
+  | DAssumedLb lb => fst (eff_dim f act) = lb /\ zextent (eff_dim f act) = zextent act
+  | DAssumed => fst (eff_dim f act) = 1 /\ zextent (eff_dim f act) = zextent act
+  | DDeferred => eff_dim f act = act
+  end.
+Proof. exact eff_dim_spec. Qed.
+Print Assumptions C06_effective_bounds.
+
+(* the bound expressions generated by matmul2code's _get_array_bound evaluate to the effective bounds *)
+Theorem C06_bound_exprs_effective : forall fm d s a k b,
+  bnd s a = d a -> nth_error (d a) k = Some b ->
+  (forall f, nth_error (fm a) k = Some f -> form_ok f b) ->
+  eval s (fst (mbound fm a k)) = Some (fst b) /\ eval s (snd (mbound fm a k)) = Some (snd b).
+Proof. exact mbound_eval. Qed.
+Print Assumptions C06_bound_exprs_effective.
+
+(* the array-assignment theorem over the effective bounds of (assumed-shape) dummies *)
+Theorem C06_arrayassign_effective_partial : forall fx fm actuals idx a s s' f,
+  aa_safe fx (eff_decls fm actuals) idx a = true -> bnd_ok (eff_decls fm actuals) s -> aa_sem a s = Some s' ->
+  exists prog, aa_apply fx (eff_decls fm actuals) idx a = Some prog /\
+  exists s2 tr, exec (3 + f) prog s = Ok s2 tr CNormal /\ agree_except [idx] s2 s'.
+Proof. intros fx fm actuals. exact (aa_sound_partial_ fx (eff_decls fm actuals)). Qed.
+Print Assumptions C06_arrayassign_effective_partial.
+
+(* ------------------------------------------------------------------ MATMUL (matrix * matrix), any declaration form *)
+(* triple loop; non-square; bounds are the form-dependent expressions; correct when the lower bounds that the
+   loops identify are equal (result/m1 rows, result/m2 columns, m1 columns/m2 rows) *)
+Theorem C06_matmat_sound_partial : forall fm d i j ii r m1 m2 s,
+  matmat_safe d i j ii r m1 m2 = true -> operands_ok fm d s [m1; m2] ->
+  hoare 7 (matmat_apply fm i j ii r m1 m2) s (fun s2 => agree_except [i; j; ii] s2 (matmat_sem d r m1 m2 s)).
+Proof. exact matmat_sound_partial_. Qed.
+Print Assumptions C06_matmat_sound_partial.
+
+(* r(0:1,0:3) = MATMUL(m1(0:1,0:2), m2(0:,0:)) with a 3x4 actual argument b(5:7,5:8) *)
+Example C06_matmat_nonvacuous :
+  mm_decls 2%nat = [(0, 2); (0, 3)] /\
+  matmat_safe mm_decls 3%nat 4%nat 5%nat 0%nat 1%nat 2%nat = true /\
+  operands_ok mm_forms mm_decls mm_store [1%nat; 2%nat] /\
+  val (matmat_sem mm_decls 0%nat 1%nat 2%nat mm_store) (0%nat, [1; 3]) = 654 /\
+  (exists s2 tr, exec 30 (matmat_apply mm_forms 3%nat 4%nat 5%nat 0%nat 1%nat 2%nat) mm_store = Ok s2 tr CNormal /\
+                 val s2 (0%nat, [1; 3]) = 654).
+Proof. exact matmat_nonvacuous. Qed.
+Print Assumptions C06_matmat_nonvacuous.
+
+(* ------------------------------------------------------------------ MATMUL (matrix * vector), any declaration form *)
+Theorem C06_matvec_forms_sound_partial : forall fm d i j r m v s,
+  matvec_safe d i j r m v = true -> operands_ok fm d s [m] -> vector_ok fm d s v ->
+  hoare 7 (matvecF_apply fm i j r m v) s (fun s2 => agree_except [i; j] s2 (matvec_sem d r m v s)).
+Proof. exact matvecF_sound_partial_. Qed.
+Print Assumptions C06_matvec_forms_sound_partial.
+
+(* r(2:3) = MATMUL(m(2:,:), v(:)) with actual arguments (5:6,7:8) and (4:5) *)
+Example C06_matvec_forms_nonvacuous :
+  mv_decls 1%nat = [(2, 3); (1, 2)] /\ mv_decls 2%nat = [(1, 2)] /\
+  matvec_safe mv_decls 3%nat 4%nat 0%nat 1%nat 2%nat = true /\
+  operands_ok mv_forms mv_decls mv_store [1%nat] /\ vector_ok mv_forms mv_decls mv_store 2%nat /\
+  val (matvec_sem mv_decls 0%nat 1%nat 2%nat mv_store) (0%nat, [3]) = 39 /\
+  (exists s2 tr, exec 30 (matvecF_apply mv_forms 3%nat 4%nat 0%nat 1%nat 2%nat) mv_store = Ok s2 tr CNormal /\
+                 val s2 (0%nat, [3]) = 39).
+Proof. exact matvecF_nonvacuous. Qed.
+Print Assumptions C06_matvec_forms_nonvacuous.
